@@ -108,7 +108,13 @@ def correspond(ctx):
     for c, r in zip(cases, plans):
         collab_check(ctx, c, parse_plan(r), module, report, dis, lines, exp, metas)
     # ------------------------------------------------------------------ adaptive_minmax
+    reg1 = M.registry(False)
+    mm_count = ctx.seed
+    cfgs = []
     for method in ('modpoly', 'imodpoly'):
+        # the wrapped method's own options (every single-parameter variant of it) are forwarded through method_kwargs
+        mk_list = [{}] + [{k: v for k, v in kwv.items()} for kwv in M.single_variants(method, reg1[method], False, base={})
+                          if not ({'poly_order', 'weights', 'return_coef'} & set(kwv))]
         for po in (None, 2, (1, 3)):
             for cf, cw in ((0.01, 1e5), (0.1, 50.0), ((0.05, 0.2), (10.0, 20.0)), (0.0, 1e5), (1.0, 2.0), ((0.08, 0.0), 1e4), ((0.0, 0.06), (5.0, 1e4)),
                            ((0.0, 0.0), 1e5)):
@@ -116,16 +122,33 @@ def correspond(ctx):
                     okind = orders[int(rng.integers(0, 3))] if iface == 'class' else ['rotated', 'shuffled'][int(rng.integers(0, 2))]
                     if not ctx.thorough and rng.random() < 0.15:
                         continue
+                    mm_count += 1
+                    cfgs.append((method, po, cf, cw, iface, okind, dict(mk_list[mm_count % len(mk_list)]), None))
+        # ... and every option once on SORTED x through the fitter (nothing is copied on the way in), with and without caller weights
+        for mk in mk_list:
+            for use_w in (False, True):
+                cfgs.append((method, None, 0.01, 1e5, 'class', orders[0], dict(mk), use_w))
+    if True:
+        if True:
+            if True:
+                for (method, po, cf, cw, iface, okind, mk, use_w) in cfgs:
                     xs, ys = data(rng, n)
                     perm = order_of(rng, n, okind)
                     x, y = xs[perm], ys[perm]
-                    w = None if rng.random() < 0.5 else (np.round(rng.uniform(0.2, 1, n) * 32) / 32)
+                    w = (np.round(rng.uniform(0.2, 1, n) * 32) / 32) if (use_w is True or (use_w is None and rng.random() < 0.5)) else None
+                    ctx.count('minmax-method_kwargs:' + (','.join(sorted(mk)) or 'none'))
                     call = caller(iface, module, x)
                     meta = {'optimizer': 'adaptive_minmax', 'method': method, 'poly_order': po, 'constrained_fraction': cf, 'constrained_weight': cw,
-                            'iface': iface, 'order': okind, 'x': x.tolist(), 'data': y.tolist(), 'weights': None if w is None else w.tolist()}
+                            'iface': iface, 'order': okind, 'x': x.tolist(), 'data': y.tolist(), 'weights': None if w is None else w.tolist(), 'method_kwargs': mk}
                     try:
-                        b, p = call('adaptive_minmax', y, poly_order=po, method=method, weights=w, constrained_fraction=cf, constrained_weight=cw)
+                        b, p = call('adaptive_minmax', y, poly_order=po, method=method, weights=w, constrained_fraction=cf, constrained_weight=cw,
+                                    method_kwargs=dict(mk))
                     except Exception as e:
+                        try:        # the wrapped method itself may reject the forwarded options (e.g. max_iter=0): then raising is right
+                            caller('class', module, x)(method, y, poly_order=2, **mk)
+                        except Exception:
+                            ctx.count('minmax:wrapped-method-raises-too')
+                            continue
                         report('c17.minmax', 'minmax:raises', f'adaptive_minmax raised {type(e).__name__}: {e}', meta)
                         continue
                     ctx.case(('minmax', method, str(po), str(cf), iface, okind, w is not None), nontrivial=True,
@@ -133,7 +156,7 @@ def correspond(ctx):
                              if len(ctx.samples) < 4 else None)
                     ctx.count('adaptive_minmax')
                     direct = caller('class', module, x)
-                    fits = [direct(method, y, poly_order=int(o), weights=wt)[0] for o in p['poly_order'] for wt in (p['weights'], p['constrained_weights'])]
+                    fits = [direct(method, y, poly_order=int(o), weights=np.array(wt, copy=True), **mk)[0] for o in p['poly_order'] for wt in (p['weights'], p['constrained_weights'])]
                     want = np.maximum.reduce(fits)
                     if not close(b, want):
                         report('c17.minmax', f'minmax:{method}', f'adaptive_minmax({method}, poly_order={po}, {iface}, x {okind}): baseline is not the '
@@ -690,8 +713,9 @@ def replay(ctx, data):
             po = tuple(po) if isinstance(po, list) else po
             cf = tuple(r['constrained_fraction']) if isinstance(r['constrained_fraction'], list) else r['constrained_fraction']
             cw = tuple(r['constrained_weight']) if isinstance(r['constrained_weight'], list) else r['constrained_weight']
-            b, p = call('adaptive_minmax', d, poly_order=po, method=r['method'], weights=w, constrained_fraction=cf, constrained_weight=cw)
-            fits = [direct(r['method'], d, poly_order=int(o), weights=wt)[0] for o in p['poly_order'] for wt in (p['weights'], p['constrained_weights'])]
+            mk = dict(r.get('method_kwargs') or {})
+            b, p = call('adaptive_minmax', d, poly_order=po, method=r['method'], weights=w, constrained_fraction=cf, constrained_weight=cw, method_kwargs=dict(mk))
+            fits = [direct(r['method'], d, poly_order=int(o), weights=np.array(wt, copy=True), **mk)[0] for o in p['poly_order'] for wt in (p['weights'], p['constrained_weights'])]
             if not close(b, np.maximum.reduce(fits)):
                 return 'adaptive_minmax baseline is not the maximum of the four fits'
         elif r['optimizer'] == 'custom_bc':
